@@ -1,6 +1,6 @@
 """C38 — hy.gensym: lock discipline around the shared counter, reserved prefix, mangled result."""
 CANON = True
-LENIENT = False  # rules over .hy sources (own s-expression reader); no canonical form there
+LENIENT = True   # .hy rules: a failed test is believed only for armed instances in a nearly-unchanged form (fdiff.hy_small_edit)
 
 import re
 
